@@ -453,6 +453,13 @@ VReport(g, L) ==
        V(L.calls = <<>>, "C01:report notification reached the data plane"),
        V(Rsps(L) = <<>>, "C08:response without request"),
        IF ~live THEN V(L.out = <<>>, "C10:report for an unknown session was forwarded")
+       \* the owning node's id is a name that resolves nowhere: nothing can be sent (and, by C11, no UR-SEQN is used up:
+       \* the ghost counters do not move, later responses show whether the implementation's did)
+       ELSE IF NodePeer(s.node) = "none"
+       THEN UNION { V(Srrs(L) = <<>>, "C10:report request for a node whose id does not resolve"),
+                    \* ... and none was prepared either: a request that is built takes UR-SEQNs, which would show as a gap later
+                    V(\A t \in Rng(L.snap.tx) : \E x \in g.tx : x.peer = t.peer /\ x.seq = t.wire,
+                      "C11:a report request was prepared (UR-SEQNs taken) for a node whose id does not resolve: the URR's next report shows a gap") }
        ELSE UNION {
          V(\A o \in Rng(Srrs(L)) : o.to = NodePeer(s.node), "C10:report not sent to the node that owns the session"),
          V(\A o \in Rng(Srrs(L)) : o.hasseid /\ o.seid = s.cp, "C10:report not addressed with the peer's SEID"),
